@@ -82,6 +82,27 @@ AllFees(ch) == SumSeq([c \in Numbers(ch) |-> SumSeq([k \in DOMAIN ch[c].commits 
 FeesConserved(ch) == SumSeq([t \in Numbers(ch) |-> CommitterFees(ch, t) + ProposerFees(ch, t)]) = AllFees(ch)
 
 -----------------------------------------------------------------------------
+(* Named classes of commits (vacuity guard of the replay: the check demands that every class occurs on the REAL chains). *)
+\* classes of the k-th commit of block c
+CommitClasses(ch, c, k) ==
+  LET id    == ch[c].commits[k].id
+      fee   == ch[c].commits[k].fee
+      P     == Proposers(ch, c, id)
+      first == Proposer(ch, c, id)
+      \* a later proposer T for which the commit is examined inside the walk-back loop (not at T + WFar)
+      InLoop(T) == T > first /\ T + WClose <= c /\ c < T + WFar
+  IN (IF c - first = WClose THEN {"commit-at-w_close"} ELSE {})
+     \cup (IF c - first = WFar THEN {"commit-at-w_far"} ELSE {})
+     \cup (IF (fee * RatioNum) % RatioDen # 0 THEN {"fee-share-rounded"} ELSE {})
+     \cup (IF id \in ch[first].uprops /\ id \notin ch[first].props THEN {"first-proposer-is-uncle"} ELSE {})
+     \* proposed by two blocks, committed inside the later one's window, the first proposal less than WFar before the commit
+     \cup (IF \E T \in P : InLoop(T) /\ first > c - WFar THEN {"double-proposal-commit-inside-first-window"} ELSE {})
+     \* first proposed by an uncle only, proposed again by a later block
+     \cup (IF id \in ch[first].uprops /\ id \notin ch[first].props /\ (\E T \in P : InLoop(T))
+             THEN {"uncle-first-then-reproposed"} ELSE {})
+     \cup (IF Cardinality(P) > 1 THEN {"reproposed"} ELSE {})
+Classes(ch) == UNION {UNION {CommitClasses(ch, c, k) : k \in DOMAIN ch[c].commits} : c \in Numbers(ch)}
+-----------------------------------------------------------------------------
 (* The search as the implementation performs it (RewardCalculator::proposal_reward): walk back from the       *)
 (* block before the finalising one, collecting the proposals of ever earlier blocks as "already proposed".     *)
 (* ClipAtOne = TRUE transcribes max(index - WFar, 1) as coded: for target 1 the collected block is the target   *)
